@@ -79,7 +79,7 @@ func WorkerMain(args []string) int {
 		fmt.Fprintf(journal, "B %d\n", idx)
 		timer := time.AfterFunc(timeout, func() {
 			fmt.Fprintf(journal, "T %d\n", idx)
-			buf := make([]byte, 1<<16)
+			buf := make([]byte, 1<<20)
 			n := runtime.Stack(buf, true)
 			fmt.Fprintf(os.Stderr, "verif: watchdog fired after %s\n%s\n", timeout, buf[:n])
 			os.Exit(3)
@@ -156,6 +156,9 @@ func parseCrash(stderr string, exit int, timedOut bool) Crash {
 			cr.Kind = "killed"
 			cr.Message = fmt.Sprintf("worker exited with status %d", exit)
 		}
+	}
+	if cr.Kind == "watchdog" {
+		cr.Deadlock, cr.BlockedIn = deadlockInDump(stderr)
 	}
 	if strings.Contains(cr.Message, StepBudgetMsg) {
 		cr.Kind = "step-budget"
@@ -288,11 +291,22 @@ func Supervise(o Options) Summary {
 	var outs []outcome
 	var raceLogs []string
 	var harnessErr string
+	skipped := 0
 	next := 0
 	batchSeq := len(queue)
+	wedges := 0
+	maxWedges := envInt("HV_MAX_WEDGES", 2*nw+8)
 	take := func() (batch, bool) {
 		mu.Lock()
 		defer mu.Unlock()
+		if wedges >= maxWedges && next < len(queue) {
+			// circuit breaker: the tree wedges case after case; every further case costs a full
+			// watchdog period. The cases not run are reported, the run is not silently shortened.
+			for _, b := range queue[next:] {
+				skipped += len(b.cases)
+			}
+			next = len(queue)
+		}
 		if next >= len(queue) {
 			return batch{}, false
 		}
@@ -418,6 +432,17 @@ func Supervise(o Options) Summary {
 				cr := parseCrash(string(stderrB), exit, timedOut)
 				c := b.cases[inflight]
 				r := p.OnCrash(c, cr)
+				if cr.Kind == "watchdog" && cr.Deadlock && r.Verdict == Inconclusive {
+					// not a matter of waiting longer: every goroutine of the program is blocked for good
+					r.Verdict, r.Nontrivial = Violated, true
+					r.Sig = "wedged:deadlock:" + cr.BlockedIn
+					r.Why = "the run can never finish: when the watchdog fired every goroutine inside the repository's code was blocked on a lock or channel (" + cr.BlockedIn + ")\n" + tailStr(cr.StderrTail, 1500)
+				}
+				if cr.Kind == "watchdog" || (cr.Kind == "killed" && timedOut) {
+					mu.Lock()
+					wedges++
+					mu.Unlock()
+				}
 				r.ID = c.ID
 				if r.Hash == "" {
 					r.Hash = HashOf(c.Kind, c.Payload)
@@ -477,7 +502,7 @@ func Supervise(o Options) Summary {
 	if harnessErr != "" {
 		return Summary{Broken: harnessErr}
 	}
-	if len(outs) != len(all) {
+	if len(outs)+skipped != len(all) {
 		return Summary{Broken: fmt.Sprintf("lost cases: %d results for %d cases", len(outs), len(all))}
 	}
 	sort.Slice(outs, func(i, j int) bool { return outs[i].c.ID < outs[j].c.ID })
@@ -490,8 +515,11 @@ func Supervise(o Options) Summary {
 	cover := map[string]int64{}
 	obs := map[string]int64{}
 	var evals int64
-	inconclusive := 0
+	inconclusive := skipped
 	var incLines []string
+	if skipped > 0 {
+		incLines = append(incLines, fmt.Sprintf("INCONCLUSIVE property=%s cases=%d why=not run: the run was cut short after %d cases wedged until their wall-clock watchdog fired (HV_MAX_WEDGES)", o.Prop, skipped, wedges))
+	}
 	var samples []any
 	var sampleCands []any
 	var results []Result
@@ -651,6 +679,9 @@ func Supervise(o Options) Summary {
 			sum.Broken = why
 		}
 	}
+	if skipped > 0 && sum.Broken == "" {
+		sum.Broken = fmt.Sprintf("the run was cut short: %d cases were not run after %d cases wedged until the watchdog fired; nothing can be claimed for them", skipped, wedges)
+	}
 	if o.OnlyCase == nil && sum.Broken == "" && len(distinct) < 2 {
 		sum.Broken = fmt.Sprintf("the run observed nothing non-trivial (%d distinct non-trivial cases)", len(distinct))
 	}
@@ -686,6 +717,69 @@ func Supervise(o Options) Summary {
 	fmt.Printf("SUMMARY property=%s tier=%s seed=%d cases=%d evaluations=%d distinct_nontrivial=%d violations=%d known=%d inconclusive=%d wall=%.1fs\n",
 		o.Prop, o.Tier, o.Seed, len(outs), evals, len(distinct), sum.Violations, len(sum.Known), inconclusive, time.Since(start).Seconds())
 	return sum
+}
+
+// deadlockInDump reads the goroutine dump a watchdog wrote: it reports a deadlock when at least one
+// goroutine has a frame of the repository on its stack and every such goroutine is blocked on a
+// synchronisation primitive. A state-based verdict: no goroutine of the program can run again, however
+// long one waits (sleeping goroutines, running ones and pending I/O make it "not a deadlock").
+func deadlockInDump(stderr string) (bool, string) {
+	i := strings.Index(stderr, "verif: watchdog fired")
+	if i < 0 {
+		return false, ""
+	}
+	blocks := strings.Split(stderr[i:], "\n\n")
+	const repo = "github.com/smarthome-go/homescript/v3/"
+	blockedStates := []string{"semacquire", "sync.Mutex.Lock", "sync.RWMutex.Lock", "sync.RWMutex.RLock", "chan receive", "chan send", "select", "sync.Cond.Wait", "sync.WaitGroup.Wait"}
+	inRepo, blocked := 0, 0
+	var where []string
+	for _, b := range blocks {
+		b = strings.TrimSpace(b)
+		if j := strings.Index(b, "goroutine "); j > 0 {
+			b = b[j:]
+		}
+		if !strings.HasPrefix(b, "goroutine ") || !strings.Contains(b, repo) {
+			continue
+		}
+		head := b
+		if k := strings.Index(b, "\n"); k > 0 {
+			head = b[:k]
+		}
+		l, r := strings.Index(head, "["), strings.Index(head, "]")
+		if l < 0 || r < l {
+			continue
+		}
+		state := head[l+1 : r]
+		if k := strings.Index(state, ","); k > 0 {
+			state = state[:k]
+		}
+		inRepo++
+		isBlocked := false
+		for _, s := range blockedStates {
+			if state == s || strings.HasPrefix(state, s+" ") {
+				isBlocked = true
+			}
+		}
+		if !isBlocked {
+			return false, ""
+		}
+		blocked++
+		for _, ln := range strings.Split(b, "\n") {
+			if strings.HasPrefix(ln, repo) {
+				f := strings.TrimPrefix(ln, repo+"homescript/")
+				if k := strings.LastIndex(f, "("); k > 0 {
+					f = f[:k]
+				}
+				where = append(where, f)
+				break
+			}
+		}
+	}
+	if inRepo == 0 || blocked != inRepo {
+		return false, ""
+	}
+	sort.Strings(where)
+	return true, strings.Join(where, " | ")
 }
 
 func tailStr(s string, n int) string {
